@@ -198,6 +198,10 @@ func top(_ *api.Context, collection b6.UntypedCollection, n int) (b6.Collection[
 			heap.Pop(h)
 		}
 	}
+	if h == nil {
+		// no entries: nothing was pushed, so no heap was created
+		return b6.ArrayCollection[interface{}, interface{}]{}.Collection(), err
+	}
 	r := b6.ArrayCollection[interface{}, interface{}]{
 		Keys:   make([]interface{}, h.Len()),
 		Values: make([]interface{}, h.Len()),
